@@ -24,6 +24,7 @@ package main
 
 import (
 	"go/token"
+	"go/types"
 
 	"golang.org/x/tools/go/ssa"
 )
@@ -94,6 +95,7 @@ func ruleS10(p *Prog, r *Report) {
 			count ssa.Value // counter whose == 0 means empty (nil: use len(v))
 		}
 		var colls []coll
+		var helperCollectors []*ssa.Function
 		// (i) collector calls
 		eachInstr(f, func(in ssa.Instruction) {
 			c, ok := in.(*ssa.Call)
@@ -101,7 +103,11 @@ func ruleS10(p *Prog, r *Report) {
 				return
 			}
 			g := c.Call.StaticCallee()
-			if g == nil || recvName(g) != storageT || !isSlabIDSlice(c.Type()) {
+			if g == nil || recvName(g) != storageT || len(g.Blocks) == 0 {
+				return
+			}
+			tup, isTuple := c.Type().(*types.Tuple)
+			if !isSlabIDSlice(c.Type()) && !isTuple {
 				return
 			}
 			rangesDeltas := false
@@ -110,138 +116,161 @@ func ruleS10(p *Prog, r *Report) {
 					rangesDeltas = true
 				}
 			})
-			if rangesDeltas {
+			if !rangesDeltas {
+				return
+			}
+			if !isTuple {
 				colls = append(colls, coll{in, c, "keys returned by " + g.Name(), nil})
+				return
+			}
+			// a collector that returns several regions (modified / deleted): each extracted slice is a collection
+			any := false
+			for _, ref := range *c.Referrers() {
+				if ex, ok := ref.(*ssa.Extract); ok && ex.Index < tup.Len() && isSlabIDSlice(ex.Type()) {
+					colls = append(colls, coll{ex, ex, "keys returned by " + g.Name(), nil})
+					any = true
+				}
+			}
+			if any {
+				helperCollectors = append(helperCollectors, g)
 			}
 		})
-		// (ii) local collector arrays
-		eachInstr(f, func(in ssa.Instruction) {
-			mk, ok := in.(*ssa.MakeSlice)
-			if !ok || !isSlabIDSlice(mk.Type()) {
-				return
-			}
-			// stores into it inside a range over the write set
-			type fill struct {
-				idx ssa.Value
-			}
-			var fills []fill
-			eachInstr(f, func(x ssa.Instruction) {
-				st, ok := x.(*ssa.Store)
-				if !ok {
+		// (ii) local collector arrays (of the entry point itself, or of a collector helper that returns the views)
+		views := func(fn *ssa.Function, add bool) {
+			eachInstr(fn, func(in ssa.Instruction) {
+				mk, ok := in.(*ssa.MakeSlice)
+				if !ok || !isSlabIDSlice(mk.Type()) {
 					return
 				}
-				ia, ok := st.Addr.(*ssa.IndexAddr)
-				if !ok || canon(ia.X) != ssa.Value(mk) {
+				// stores into it inside a range over the write set
+				type fill struct {
+					idx ssa.Value
+				}
+				var fills []fill
+				eachInstr(fn, func(x ssa.Instruction) {
+					st, ok := x.(*ssa.Store)
+					if !ok {
+						return
+					}
+					ia, ok := st.Addr.(*ssa.IndexAddr)
+					if !ok || canon(ia.X) != ssa.Value(mk) {
+						return
+					}
+					fills = append(fills, fill{ia.Index})
+				})
+				if len(fills) == 0 {
 					return
 				}
-				fills = append(fills, fill{ia.Index})
-			})
-			if len(fills) == 0 {
-				return
-			}
-			// every slice view of the array
-			ord := 0
-			eachInstr(f, func(x ssa.Instruction) {
-				sl, ok := x.(*ssa.Slice)
-				if !ok || canon(sl.X) != ssa.Value(mk) {
-					return
-				}
-				ord++
-				exact := false
-				var counter ssa.Value
-				// linear forms over len(A), loop phis and constants: a fill at index I(P) (P = the counter's header
-				// phi, advanced by one per fill) fills {I(0..P-1)}; the view must be exactly that set:
-				// front I(P) = P with view [:P], back I(P) = len-1-P with view [len-P:]
-				lo, okLo := linOf(sl.Low, mk)
-				hi, okHi := linOf(sl.High, mk)
-				if sl.Low == nil {
-					lo, okLo = linForm{}, true
-				}
-				if sl.High == nil {
-					hi, okHi = linForm{lenC: 1}, true
-				}
-				if okLo && okHi {
-					for _, fl := range fills {
-						fi, ok := linOf(fl.idx, mk)
-						if !ok || len(fi.phis) != 1 {
-							continue
-						}
-						var ph *ssa.Phi
-						var pc int64
-						for k, v := range fi.phis {
-							ph, pc = k, v
-						}
-						switch {
-						case pc == 1 && fi.lenC == 0 && fi.c == 0:
-							// front: view [0 : P]
-							if lo.isZero() && hi.lenC == 0 && hi.c == 0 && len(hi.phis) == 1 && hi.phis[ph] == 1 {
-								exact, counter = true, ph
+				// every slice view of the array
+				ord := 0
+				eachInstr(fn, func(x ssa.Instruction) {
+					sl, ok := x.(*ssa.Slice)
+					if !ok || canon(sl.X) != ssa.Value(mk) {
+						return
+					}
+					ord++
+					exact := false
+					var counter ssa.Value
+					// linear forms over len(A), loop phis and constants: a fill at index I(P) (P = the counter's header
+					// phi, advanced by one per fill) fills {I(0..P-1)}; the view must be exactly that set:
+					// front I(P) = P with view [:P], back I(P) = len-1-P with view [len-P:]
+					lo, okLo := linOf(sl.Low, mk)
+					hi, okHi := linOf(sl.High, mk)
+					if sl.Low == nil {
+						lo, okLo = linForm{}, true
+					}
+					if sl.High == nil {
+						hi, okHi = linForm{lenC: 1}, true
+					}
+					if okLo && okHi {
+						for _, fl := range fills {
+							fi, ok := linOf(fl.idx, mk)
+							if !ok || len(fi.phis) != 1 {
+								continue
 							}
-						case pc == -1 && fi.lenC == 1 && fi.c == -1:
-							// back: view [len-P : len]
-							if hi.lenC == 1 && hi.c == 0 && len(hi.phis) == 0 && lo.lenC == 1 && lo.c == 0 && len(lo.phis) == 1 && lo.phis[ph] == -1 {
-								exact, counter = true, ph
+							var ph *ssa.Phi
+							var pc int64
+							for k, v := range fi.phis {
+								ph, pc = k, v
+							}
+							switch {
+							case pc == 1 && fi.lenC == 0 && fi.c == 0:
+								// front: view [0 : P]
+								if lo.isZero() && hi.lenC == 0 && hi.c == 0 && len(hi.phis) == 1 && hi.phis[ph] == 1 {
+									exact, counter = true, ph
+								}
+							case pc == -1 && fi.lenC == 1 && fi.c == -1:
+								// back: view [len-P : len]
+								if hi.lenC == 1 && hi.c == 0 && len(hi.phis) == 0 && lo.lenC == 1 && lo.c == 0 && len(lo.phis) == 1 && lo.phis[ph] == -1 {
+									exact, counter = true, ph
+								}
 							}
 						}
 					}
-				}
-				n++
-				cons := "collector-view:" + p.Name(f)
-				if ord > 1 {
-					cons += "#" + itoa(ord)
-				}
-				if exact {
-					// the counter that bounds the region advances with every fill: c is a loop phi and the block of
-					// each fill that indexes by c also computes c + 1, which flows back into the phi
-					adv := false
-					if ph, ok := canon(counter).(*ssa.Phi); ok {
-						eachInstr(f, func(y ssa.Instruction) {
-							bo, ok := y.(*ssa.BinOp)
-							if !ok || bo.Op != token.ADD || canon(bo.X) != ssa.Value(ph) {
-								return
-							}
-							if k, isK := constInt(bo.Y); !isK || k != 1 {
-								return
-							}
-							flows := false
-							for _, e := range ph.Edges {
-								if canon(e) == ssa.Value(bo) {
-									flows = true
+					n++
+					cons := "collector-view:" + p.Name(fn)
+					if ord > 1 {
+						cons += "#" + itoa(ord)
+					}
+					if exact {
+						// the counter that bounds the region advances with every fill: c is a loop phi and the block of
+						// each fill that indexes by c also computes c + 1, which flows back into the phi
+						adv := false
+						if ph, ok := canon(counter).(*ssa.Phi); ok {
+							eachInstr(fn, func(y ssa.Instruction) {
+								bo, ok := y.(*ssa.BinOp)
+								if !ok || bo.Op != token.ADD || canon(bo.X) != ssa.Value(ph) {
+									return
 								}
-								if p2, ok := canon(e).(*ssa.Phi); ok {
-									for _, e2 := range p2.Edges {
-										if canon(e2) == ssa.Value(bo) {
-											flows = true
+								if k, isK := constInt(bo.Y); !isK || k != 1 {
+									return
+								}
+								flows := false
+								for _, e := range ph.Edges {
+									if canon(e) == ssa.Value(bo) {
+										flows = true
+									}
+									if p2, ok := canon(e).(*ssa.Phi); ok {
+										for _, e2 := range p2.Edges {
+											if canon(e2) == ssa.Value(bo) {
+												flows = true
+											}
 										}
 									}
 								}
-							}
-							if !flows {
-								return
-							}
-							// a fill in the same block
-							for _, z := range bo.Block().Instrs {
-								if st, ok := z.(*ssa.Store); ok {
-									if ia, ok := st.Addr.(*ssa.IndexAddr); ok && canon(ia.X) == ssa.Value(mk) {
-										adv = true
+								if !flows {
+									return
+								}
+								// a fill in the same block
+								for _, z := range bo.Block().Instrs {
+									if st, ok := z.(*ssa.Store); ok {
+										if ia, ok := st.Addr.(*ssa.IndexAddr); ok && canon(ia.X) == ssa.Value(mk) {
+											adv = true
+										}
 									}
 								}
-							}
-						})
+							})
+						}
+						if !adv {
+							r.Bad(R, cons, p.InstrPos(x), "the counter that bounds this region of the collector array is not advanced together with the fills that index by it: the region stays empty (or too short) and the keys collected into it are never applied")
+							return
+						}
 					}
-					if !adv {
-						r.Bad(R, cons, p.InstrPos(x), "the counter that bounds this region of the collector array is not advanced together with the fills that index by it: the region stays empty (or too short) and the keys collected into it are never applied")
+					if !exact {
+						r.Bad(R, cons, p.InstrPos(x), "this slice of the array the commit keys were collected into is neither the region filled from the front ([:counter]) nor the region filled from the back ([len-counter:]): it can contain unset (zero) identifiers and miss collected ones")
 						return
 					}
-				}
-				if !exact {
-					r.Bad(R, cons, p.InstrPos(x), "this slice of the array the commit keys were collected into is neither the region filled from the front ([:counter]) nor the region filled from the back ([len-counter:]): it can contain unset (zero) identifiers and miss collected ones")
-					return
-				}
-				r.Ok(R, cons, p.InstrPos(x), "exact region of the collector array")
-				colls = append(colls, coll{x, sl, "region of the collector array", counter})
+					r.Ok(R, cons, p.InstrPos(x), "exact region of the collector array")
+					if add {
+						colls = append(colls, coll{x, sl, "region of the collector array", counter})
+					}
+				})
 			})
-		})
+		}
+		views(f, true)
+		for _, g := range helperCollectors {
+			views(g, false)
+		}
 		// consumption of every collection
 		hasRecvWriteLoop := func(from ssa.Instruction, edgeOK func(*ssa.BasicBlock, int) bool) bool {
 			// every success path after `from` passes through a loop that receives from a channel and writes a register
@@ -459,6 +488,7 @@ func recordedError(ev ssa.Value, b *ssa.BasicBlock) bool {
 //	                     (C15: dropping both reverts the view to the last commit)
 //	temp-id-advances     on the temporary-address path of GenerateSlabID the counter the identifier is built from is
 //	                     advanced on every call (C09: two live slabs never share an identifier)
+//
 // storageLayerFields: the fields of PersistentSlabStorage that make up the overlay model.
 var storageLayerFields = map[string]bool{"deltas": true, "cache": true, "baseStorage": true, "tempSlabIndex": true,
 	"cborEncMode": true, "cborDecMode": true, "DecodeStorable": true, "DecodeTypeInfo": true}
@@ -519,7 +549,13 @@ func ruleS11(p *Prog, r *Report) {
 					return
 				}
 				for _, x := range b.Instrs {
-					if fw, ok := p.fieldWriteOfX(x); ok && fw.Kind == "mapdelete" && fw.Ref.is(storageT, "deltas") && sameValue(fw.Key, idv) {
+					retired := false
+					for _, fw := range p.fieldWritesOfX(x) {
+						if fw.Kind == "mapdelete" && fw.Ref.is(storageT, "deltas") && sameValue(fw.Key, idv) {
+							retired = true
+						}
+					}
+					if retired {
 						return
 					}
 					if ret, ok := x.(*ssa.Return); ok {
@@ -674,8 +710,12 @@ func (p *Prog) wrapperRetires(g *ssa.Function) bool {
 	}
 	key := g.Params[i]
 	isDel := func(z ssa.Instruction) bool {
-		fw, ok := p.fieldWriteOfX(z)
-		return ok && fw.Kind == "mapdelete" && fw.Ref.is(storageT, "deltas") && sameValue(fw.Key, key)
+		for _, fw := range p.fieldWritesOfX(z) {
+			if fw.Kind == "mapdelete" && fw.Ref.is(storageT, "deltas") && sameValue(fw.Key, key) {
+				return true
+			}
+		}
+		return false
 	}
 	return successReturnAvoiding(g, nil, isDel) == nil
 }
